@@ -460,7 +460,7 @@ func (c *Client) opendir(ctx context.Context, path string) (string, error) {
 		}
 		return handle, nil
 	case sshFxpStatus:
-		return "", normaliseError(unmarshalStatus(id, data))
+		return "", unmarshalStatusAsError(id, sshFxpHandle, data)
 	default:
 		return "", unimplementedPacketErr(typ)
 	}
@@ -500,7 +500,7 @@ func (c *Client) Lstat(p string) (os.FileInfo, error) {
 		}
 		return fileInfoFromStat(attr, path.Base(p)), nil
 	case sshFxpStatus:
-		return nil, normaliseError(unmarshalStatus(id, data))
+		return nil, unmarshalStatusAsError(id, sshFxpAttrs, data)
 	default:
 		return nil, unimplementedPacketErr(typ)
 	}
@@ -535,7 +535,7 @@ func (c *Client) ReadLink(p string) (string, error) {
 		}
 		return filename, nil
 	case sshFxpStatus:
-		return "", normaliseError(unmarshalStatus(id, data))
+		return "", unmarshalStatusAsError(id, sshFxpName, data)
 	default:
 		return "", unimplementedPacketErr(typ)
 	}
@@ -705,7 +705,7 @@ func (c *Client) open(path string, pflags uint32) (*File, error) {
 		}
 		return &File{c: c, path: path, handle: handle}, nil
 	case sshFxpStatus:
-		return nil, normaliseError(unmarshalStatus(id, data))
+		return nil, unmarshalStatusAsError(id, sshFxpHandle, data)
 	default:
 		return nil, unimplementedPacketErr(typ)
 	}
@@ -749,7 +749,7 @@ func (c *Client) stat(path string) (*FileStat, error) {
 		attr, _, err := unmarshalAttrs(data)
 		return attr, err
 	case sshFxpStatus:
-		return nil, normaliseError(unmarshalStatus(id, data))
+		return nil, unmarshalStatusAsError(id, sshFxpAttrs, data)
 	default:
 		return nil, unimplementedPacketErr(typ)
 	}
@@ -773,7 +773,7 @@ func (c *Client) fstat(handle string) (*FileStat, error) {
 		attr, _, err := unmarshalAttrs(data)
 		return attr, err
 	case sshFxpStatus:
-		return nil, normaliseError(unmarshalStatus(id, data))
+		return nil, unmarshalStatusAsError(id, sshFxpAttrs, data)
 	default:
 		return nil, unimplementedPacketErr(typ)
 	}
@@ -807,7 +807,7 @@ func (c *Client) StatVFS(path string) (*StatVFS, error) {
 
 	// the resquest failed
 	case sshFxpStatus:
-		return nil, normaliseError(unmarshalStatus(id, data))
+		return nil, unmarshalStatusAsError(id, sshFxpExtendedReply, data)
 
 	default:
 		return nil, unimplementedPacketErr(typ)
@@ -980,7 +980,7 @@ func (c *Client) RealPath(path string) (string, error) {
 		}
 		return filename, nil
 	case sshFxpStatus:
-		return "", normaliseError(unmarshalStatus(id, data))
+		return "", unmarshalStatusAsError(id, sshFxpName, data)
 	default:
 		return "", unimplementedPacketErr(typ)
 	}
@@ -2275,6 +2275,17 @@ func (f *File) Sync() error {
 	default:
 		return &unexpectedPacketErr{want: sshFxpStatus, got: typ}
 	}
+}
+
+// unmarshalStatusAsError decodes the status reply to a request that has to be
+// answered with a value (a handle, attributes, a name, ...).
+// SSH_FX_OK carries no such value, so it is reported as an error too,
+// rather than handing a nil value with a nil error to the caller.
+func unmarshalStatusAsError(id uint32, want fxp, data []byte) error {
+	if err := normaliseError(unmarshalStatus(id, data)); err != nil {
+		return err
+	}
+	return &unexpectedPacketErr{want: want, got: sshFxpStatus}
 }
 
 // normaliseError normalises an error into a more standard form that can be
